@@ -60,9 +60,25 @@ class RepairWorld(World):
             mname = msg[1].rsplit('::', 1)[-1] if msg and msg[0] == 'adt' else '?'
             if mname == 'Diff':
                 mod, rem = self.diff_answer
-                return ('future', 'ready', ('tuple', [Cell(('vec', [('tuple', [Cell(('key', k)), Cell(('ts', s))]) for k, s in mod])),
-                                                      Cell(('vec', [('tuple', [Cell(('key', k)), Cell(('ts', s))]) for k, s in rem]))]))
+                pair = ('tuple', [Cell(('vec', [('tuple', [Cell(('key', k)), Cell(('ts', s))]) for k, s in mod])),
+                                  Cell(('vec', [('tuple', [Cell(('key', k)), Cell(('ts', s))]) for k, s in rem]))])
+                # what the actor answers is what its `Diff` handler makes of the set's diff() — interpreted, so the reply may be the pair
+                # itself or any private type built from it
+                ods = [b_ for n_, b_ in self.facts.bodies.items() if b_.crate == EC and b_.kind == 'coroutine' and b_.cfg is not None
+                       and strip_generics(n_).endswith('::KeyspaceActor::on_diff::{closure#0}')]
+                od = ods[0] if len(ods) == 1 else None
+                if od is not None:
+                    self.diff_pair = pair
+                    self.on_diff_interpreted = True
+                    ups_ = upvar_types(od)
+                    n_ = max(ups_) + 1 if ups_ else 0
+                    cells_ = [Cell(('ref', Cell(('opaque', 'keyspace-actor'))) if ups_.get(i, '').startswith('&') else msg if 'Diff' in ups_.get(i, '') else ('opaque', 'u')) for i in range(n_)]
+                    out_ = interp.run_body(od, [('closure', od.defp, cells_), ('opaque', 'cx')], 1)
+                    return ('future', 'ready', out_)
+                return ('future', 'ready', pair)
             return ('future', 'ready', ok(UNIT))
+        if name.endswith('::OrSWotSet::diff') and getattr(self, 'diff_pair', None) is not None:
+            return self.diff_pair
         if name.startswith('puppet::'):
             return ('opaque', 'mailbox:' + seg) if body.local_ty(t['dest']['l']) != '()' else UNIT
         if name.endswith('::KeyspaceGroup::get_or_create_keyspace'):
@@ -128,7 +144,22 @@ def check_repair(ctx, facts, rule):
         if r[0] != 'adt' or r[1] != 'core::result::Result' or r[2] != 0:
             raise Unmodelled('get_keyspace_diff does not return Ok on a successful exchange')
         d = it.deref_all(r[3][0].v)
-        fields = {f['name']: it.deref_all(c.v) for f, c in zip(kd['variants'][0]['fields'], d[3])}
+        ctx.on_diff_interpreted = bool(getattr(world, 'on_diff_interpreted', False))
+
+        def named_fields(v, adt_name, depth=0):
+            # the named fields of the result, looking into private structs of the crate it is composed of
+            out_ = {}
+            a_ = facts.adts.get(adt_name)
+            if a_ is None or a_['kind'] != 'struct' or v is None or v[0] != 'adt' or depth > 2:
+                return out_
+            for f_, c_ in zip(a_['variants'][0]['fields'], v[3]):
+                x_ = it.deref_all(c_.v)
+                out_.setdefault(f_['name'], x_)
+                if x_ is not None and x_[0] == 'adt' and x_[1].startswith(EC):
+                    for k_, v_ in named_fields(x_, x_[1], depth + 1).items():
+                        out_.setdefault(k_, v_)
+            return out_
+        fields = named_fields(d, P + 'KeyspaceDiff')
         got_mod = pairs_in(it, fields.get('modified'))
         got_rem = pairs_in(it, fields.get('removed'))
         got_lu = fields.get('last_updated')
